@@ -134,6 +134,12 @@ theorem codon_history_spec (held : List Char) (sps : List (List Char)) :
 theorem complement_is_iupac (name : List Char) (c : Char) : complementChar name c = expectComplement name c :=
   complement_spec name c
 
+/-- T8b: for EVERY alphabet name and EVERY text (any length): `Sequence(text, alphabet).reverse_complement()` is the
+    IUPAC complement of every letter, last letter first; refused exactly when some letter has no complement. -/
+theorem reverse_complement_spec (name s : List Char) : okRevComp name s (reverseComplement name s) = true :=
+  revcomp_ok name s
+example : reverseComplement "NT_EXTENDED".toList "AUg".toList = some "cAT".toList := by decide +kernel
+
 /-- T9: complementing is an involution on every letter except `U`/`u` … -/
 theorem complement_involution (name : List Char) (c d : Char) (hU : c ≠ 'U') (hu : c ≠ 'u')
     (h : complementChar name c = some d) : complementChar name d = some c :=
